@@ -54,7 +54,8 @@ def xform(sk, *xs):
     else:
         f, pos, _ = build_tree(sk["tree"], xs)
     ids = rank_ids_for(d)
-    t = Tensor.fromFiber(ids, f, shape=[S] * d) if not sk.get("noshape") else Tensor.fromFiber(ids, f)
+    shp = list(sk["box"]) if (sk.get("box") and S is None) else [S] * d      # S=None: a box that is not a cube carries its own dimensions
+    t = Tensor.fromFiber(ids, f, shape=shp) if not sk.get("noshape") else Tensor.fromFiber(ids, f)
     c0 = content(t.getRoot())
     n = xforms.xf_nargs(name, opt)
     a = list(xs[pos:pos + n])
@@ -127,6 +128,10 @@ def xform(sk, *xs):
             return fail("%s: rank ids not restored" % name)
     if name == "swizzleRanks":
         perm = opt["perm"]
+        if not sk.get("noshape"):
+            # a well-formed result: every rank reports the shape of the rank it came from, and holds its coordinates inside it
+            if r.getShape() != [t.getShape()[i] for i in perm]:
+                return fail("swizzled tensor reports shape %r, the operand's shape permuted is %r" % (r.getShape(), [t.getShape()[i] for i in perm]))
         inv = [perm.index(i) for i in range(len(perm))]
         back = r.swizzleRanks([r.getRankIds()[i] for i in inv])
         if not (back == t) or content(back.getRoot()) != content(t.getRoot()):
@@ -244,6 +249,8 @@ def obligations(tier):
             # sparse (canonical) boxes: consecutive points of the new order that differ at an upper level and agree at a lower one
             obs.append(_mk(None, "swizzleRanks", {"perm": list(perm)}, box=[2, 2, 2], S=2, fixed=[0, 0, 0, 7], canon=True))
             obs.append(_mk(None, "swizzleRanks", {"perm": list(perm)}, box=[2, 2, 2], S=2, fixed=[0, 3, 0, 0], canon=True))
+            if list(perm) in ([1, 2, 0], [2, 0, 1]):
+                obs.append(_mk(None, "swizzleRanks", {"perm": list(perm)}, box=[1, 2, 3], S=None, fixed=[0, 4, 0], canon=True))
         else:
             obs.append(_mk(None, "swizzleRanks", {"perm": list(perm)}, box=[2, 2, 2], S=2))
             obs.append(_mk(None, "swizzleRanks", {"perm": list(perm)}, box=[2, 2, 2], S=2, canon=True))
